@@ -19,18 +19,19 @@ def model_check(ctx, quick):
         ctx.tlc("Log", cfg_text=vlib.cfg_text(constants={"NProd": np_, "NMsgs": nm, "Cap": cap, "Scheduled": sched},
                                               invariants=["TokenImpliesFlag", "NoBlockedSend", "PrefixOK", "Complete"]),
                 timeout=3000)
-    ctx.tlc("LogAbsGen", cfg_text=vlib.cfg_text(spec="GenSpec", constants={"NP": 2, "MaxOps": 2 if quick else 3, "Emit": False},
-                                                invariants=["Ordered", "OnlyEnabled"], view="View"), timeout=3000)
+    ctx.tlc("LogAbsGen", cfg_text=vlib.cfg_text(spec="GenSpec", constants={"NP": 2, "MaxOps": 2 if quick else 3, "Emit": False, "Rerun": False},
+                                                invariants=["OnlyEnabled"], view="View"), timeout=3000)
 
 
 def gen_scripts(ctx, quick):
     rnd = random.Random(ctx.seed)
-    cfgs = [(1, 12), (2, 20), (3, 30), (4, 40), (2, 60), (3, 12)]
+    cfgs = [(1, 12, False), (2, 20, False), (3, 30, False), (4, 40, False), (2, 60, False), (3, 12, False),
+            (1, 16, True), (2, 24, True)]
     per = 14 if quick else 150
 
     def one(a):
-        k, (np_, ops) = a
-        r = ctx.tlc("LogAbsGen", cfg_text=vlib.cfg_text(spec="GenSpec", constants={"NP": np_, "MaxOps": ops, "Emit": True}),
+        k, (np_, ops, rerun) = a
+        r = ctx.tlc("LogAbsGen", cfg_text=vlib.cfg_text(spec="GenSpec", constants={"NP": np_, "MaxOps": ops, "Emit": True, "Rerun": rerun}),
                     mode="simulate", num=per, depth=ops + 5, seed=ctx.seed * 389 + k, timeout=900, count=False)
         return r.emitted()
     scripts = []
@@ -38,6 +39,9 @@ def gen_scripts(ctx, quick):
         for g in part:
             s = {"np": g["np"], "ops": g["ops"], "paced": rnd.random() < 0.5, "stallMs": rnd.choice([0, 0, 5, 40]),
                  "paceUs": rnd.choice([100, 500, 3000, 15000]), "burst": 0, "shutMs": rnd.choice([0, 0, 1, 15])}
+            if any(o["kind"] == "tracer" and o.get("a") == 1 for o in g["ops"]) and rnd.random() < 0.7:
+                # re-run tracer operations: keep the lines of several phases in the buffer together
+                s.update({"paced": True, "stallMs": rnd.choice([40, 80])})
             scripts.append(s)
     # buffer overflow runs: more lines than the 1024-entry buffer holds while the writer is stalled / slow
     nb = 6 if quick else 40
